@@ -10,7 +10,8 @@
 //!    over that alphabet.  After EVERY transition the complete observable surface is compared with the
 //!    model (`Vec<bool>` of length 64N): `test(i)` for every i, `count()`, `iter_bits()` (exact ascending
 //!    list, at most 64N+1 items pulled), `==` / `!=` against a second bitset built from the model by `set`
-//!    and against one-bit neighbours, `Display`, `Debug`.
+//!    and against one-bit neighbours, `Display`, `Debug` (for the large capacities `Debug` is compared once
+//!    per distinct state reached instead of after every transition: rendering dominates the cost there).
 //!    Small capacities (N <= 10) use the boundary alphabet P_N; large ones (N = 64, 65, 130: 4096 bits,
 //!    one word more, two 4096-bit blocks and two words) use a reduced alphabet around the word and the
 //!    4096-bit block boundaries so that the closure stays small while every observer still covers all 64N bits.
@@ -196,8 +197,7 @@ fn touch_n<const M: usize>() {
         b.remove(0);
         let c = !b.clone();
         let _ = catch(|| format!("{}", b));
-        let _ = catch(|| format!("{:?}", b));
-        let _ = catch(|| format!("{}", c));
+        let _ = catch(|| format!("{:?}", c));
         for x in [&b, &c] {
             let _ = catch(|| (x.count(), x.iter_bits().take(top + 1).count(), x.test(top - 1)));
         }
@@ -247,7 +247,8 @@ fn warm_up(list: &[usize]) {
 }
 
 /// Run `f` in a thread pool of its own; each of its threads performs the warm-up before anything else, so
-/// what a thread has done when it judges a call is: the warm-up, then calls on the pass's capacity only.
+/// what a thread has done when it judges a call is: the warm-up, then steps of this pass only (calls on
+/// the pass's capacity, and `touch` of a neighbouring capacity where a history contains it).
 fn in_fresh_pool<R: Send>(warm: Vec<usize>, f: impl FnOnce() -> R + Send) -> R {
     POOLS.fetch_add(1, Ordering::Relaxed);
     let pool = rayon::ThreadPoolBuilder::new().start_handler(move |_| warm_up(&warm)).build().unwrap_or_else(|e| {
@@ -345,7 +346,7 @@ fn render_diff(what: &str, got: &str, exp: &str) -> String {
 }
 
 /// Err((observer family, message)).  Ok = the Display rendering that was observed (it equals the model string).
-fn oracle<const N: usize>(b: &Bitset<N>, m: &[bool], probe: &[usize]) -> Result<String, (&'static str, String)> {
+fn oracle<const N: usize>(b: &Bitset<N>, m: &[bool], probe: &[usize], with_debug: bool) -> Result<String, (&'static str, String)> {
     let top = 64 * N;
     for i in 0..top {
         let got = b.test(i);
@@ -402,11 +403,18 @@ fn oracle<const N: usize>(b: &Bitset<N>, m: &[bool], probe: &[usize]) -> Result<
     if d != exp {
         return Err(("display", render_diff("Display", &d, &exp)));
     }
-    let dbg = format!("{:?}", b);
-    if dbg != exp {
-        return Err(("debug", render_diff("Debug", &dbg, &exp)));
+    if with_debug {
+        check_debug(b, &exp)?;
     }
     Ok(d)
+}
+
+fn check_debug<const N: usize>(b: &Bitset<N>, exp: &str) -> Result<(), (&'static str, String)> {
+    let dbg = format!("{:?}", b);
+    if dbg != exp {
+        return Err(("debug", render_diff("Debug", &dbg, exp)));
+    }
+    Ok(())
 }
 
 #[derive(Clone)]
@@ -424,6 +432,13 @@ struct Sys<const N: usize> {
     probe: Vec<usize>,
     /// capacities used by `touch`
     touch: Vec<usize>,
+}
+
+/// Debug is compared after every transition for N <= 10.  For the large capacities (where rendering 64N
+/// characters dominates the cost) Display is compared after every transition and Debug once for every
+/// distinct state reached (and after every step of a replay).
+fn debug_every_transition(n: usize) -> bool {
+    !is_large(n)
 }
 
 impl<const N: usize> Sys<N> {
@@ -460,7 +475,7 @@ impl<const N: usize> System for Sys<N> {
             Act::FromU64(w) => Bitset::<N>::from_u64(*w),
             _ => unreachable!(),
         };
-        let disp = oracle(&b, &m, &self.probe).map_err(|e| tag(kind_of(a), e))?;
+        let disp = oracle(&b, &m, &self.probe, debug_every_transition(N)).map_err(|e| tag(kind_of(a), e))?;
         Ok(St { b, m, disp })
     }
 
@@ -493,9 +508,10 @@ impl<const N: usize> System for Sys<N> {
                 if !(c == s.b) || c != s.b {
                     return Err("[clone.eq] a clone is not == to its original".into());
                 }
-                let (d1, d2) = (format!("{}", c), format!("{}", s.b));
-                if d1 != d2 {
-                    return Err(format!("[clone.display] {}", render_diff("the clone's Display", &d1, &d2)));
+                // x has not been touched since `disp` was taken
+                let d = format!("{}", c);
+                if d != s.disp {
+                    return Err(format!("[clone.display] {}", render_diff("the clone's Display", &d, &s.disp)));
                 }
                 s.b = c;
             }
@@ -504,15 +520,16 @@ impl<const N: usize> System for Sys<N> {
                     0 => !s.b.clone(),
                     _ => Bitset::<N>::new(),
                 };
-                // the target has a life of its own before it is overwritten
-                let before = (t.count(), format!("{}", t));
+                // the target has been observed (counted, rendered) before it is overwritten
+                let held = t.count();
+                let _ = format!("{}", t);
                 t.clone_from(&s.b);
                 if !(t == s.b) || t != s.b {
-                    return Err(format!("[clone_from.eq] after target.clone_from(&x) the target (it held {} members) is not == to x", before.0));
+                    return Err(format!("[clone_from.eq] after target.clone_from(&x) the target (it held {held} members) is not == to x"));
                 }
-                let (d1, d2) = (format!("{}", t), format!("{}", s.b));
-                if d1 != d2 {
-                    return Err(format!("[clone_from.display] {}", render_diff("Display of the target of clone_from", &d1, &d2)));
+                let d = format!("{}", t);
+                if d != s.disp {
+                    return Err(format!("[clone_from.display] {}", render_diff("Display of the target of clone_from", &d, &s.disp)));
                 }
                 s.b = t;
             }
@@ -525,8 +542,19 @@ impl<const N: usize> System for Sys<N> {
             }
         }
         model_apply(&mut s.m, a);
-        s.disp = oracle(&s.b, &s.m, &self.probe).map_err(|e| tag(kind_of(a), e))?;
+        s.disp = oracle(&s.b, &s.m, &self.probe, debug_every_transition(N)).map_err(|e| tag(kind_of(a), e))?;
         Ok(fnv(s.disp.as_bytes()))
+    }
+
+    fn invariant(&self, s: &St<N>) -> Result<(), String> {
+        if debug_every_transition(N) {
+            return Ok(());
+        }
+        PROGRESS.fetch_add(1, Ordering::Relaxed);
+        match catch(|| check_debug(&s.b, &s.disp)) {
+            Ok(r) => r.map_err(|e| tag("state", e)),
+            Err(p) => Err(format!("[state.debug] formatting with {{:?}} panicked: {p}")),
+        }
     }
 
     fn canon(&self, s: &St<N>) -> Vec<u8> {
@@ -768,7 +796,7 @@ struct Plan {
     wall_cap: f64,
 }
 
-/// The pass a violation was found in: part of its replay value.
+/// The book-keeping a pass writes to, and the warm-up it runs after (part of every replay value).
 struct Ctx<'a> {
     run: &'a mut Run,
     fams: &'a mut Fams,
@@ -1142,7 +1170,7 @@ fn main() {
          below 64N; for N >= 64 (4096 bits = a 64x64 block, one word more, two blocks and two words): {0,63,64,4095,4096,4097,64N-1} below 64N, in thorough also \
          the positions around the later multiples of 4096. After every transition test(i) for every i < 64N, count, iter_bits (exact list, at most 64N+1 items \
          pulled), == / != against a bitset rebuilt by set() and against one-bit neighbours at every position of P_N and around every multiple of 4096, Display \
-         and Debug (all 64N characters) are compared with a Vec<bool> model; state identity = model bits + Display rendering (no field dropped). Then & | ^ and \
+         and Debug (all 64N characters; for N >= 64 Debug once per distinct state reached instead of per transition) are compared with a Vec<bool> model; state identity = model bits + Display rendering (no field dropped). Then & | ^ and \
          &= |= ^= on all ordered pairs (self-pairs included) of the first min(states, 1500; 128 for N >= 64) patterns in BFS order, operands rebuilt from the \
          pattern by set(); results and operands read back through test(i) for every i. The full-alphabet sweep (every index 0..64N) is depth-bounded and reported \
          separately. Interference between capacities: every pass runs in a thread pool of its own whose threads first use a bitset of every OTHER capacity \
